@@ -52,8 +52,54 @@ func singleDef(info *types.Info, body ast.Node, v *types.Var) ast.Expr {
 	return def
 }
 
-// refLitTag returns the constant tag of a nodeRef{pointer: …, tag: T} literal.
+// refLitTag returns the constant tag of a nodeRef{pointer: …, tag: T} literal – written in place,
+// or returned by every return statement of a helper, method or closure the expression calls
+// (newLeafRef(p), n4.asRef(), createLeaf()). ptr is the pointer operand as the caller wrote it when
+// it can be traced (a parameter or the receiver of the helper), else the helper's own expression.
 func (c *Ctx) refLitTag(e ast.Expr) (tag int64, ptr ast.Expr, ok bool) {
+	return c.refLitTagDepth(e, 0)
+}
+
+func (c *Ctx) refLitTagDepth(e ast.Expr, depth int) (tag int64, ptr ast.Expr, ok bool) {
+	if call, isCall := ast.Unparen(e).(*ast.CallExpr); isCall && depth < 3 && !isConversion(c.m.Info, call) {
+		cu := c.m.calleeUnit(call)
+		if cu == nil {
+			return
+		}
+		if n := namedOf(c.m.Info.TypeOf(call)); n == nil || n.Obj() != c.m.NodeRef.Obj() {
+			return
+		}
+		rets, all := returnExprs(cu)
+		if !all {
+			return
+		}
+		for i, r := range rets {
+			r = c.m.throughLocals(cu, r)
+			t, p, rok := c.refLitTagDepth(r, depth+1)
+			if !rok || (i > 0 && t != tag) {
+				return 0, nil, false
+			}
+			tag = t
+			if i == 0 {
+				ptr = p
+				// trace the pointer operand back to the caller's expression
+				inner := ast.Unparen(c.m.throughLocals(cu, p))
+				for {
+					if cv, isCv := inner.(*ast.CallExpr); isCv && isConversion(c.m.Info, cv) && len(cv.Args) == 1 {
+						inner = ast.Unparen(cv.Args[0])
+						continue
+					}
+					break
+				}
+				if id, isId := inner.(*ast.Ident); isId {
+					if a := argFor(call, c.m.paramIndex(cu, id)); a != nil {
+						ptr = a
+					}
+				}
+			}
+		}
+		return tag, ptr, len(rets) > 0
+	}
 	cl, isLit := ast.Unparen(e).(*ast.CompositeLit)
 	if !isLit {
 		return
